@@ -83,6 +83,80 @@ def draw_offset(rng):
     return unit, k, off
 
 
+SMALL_WINDOWS = 8
+
+
+def draw_window(rng, q, npts):
+    """INPUT FAMILY "all smoothing windows": the q-th member — the windows 1 … SMALL_WINDOWS one after the other (1 = the identity; an even
+    window has no centre, so it is one-sided), afterwards any window from 1 to beyond the number of nodes of the branch"""
+    return q % SMALL_WINDOWS + 1 if q < SMALL_WINDOWS else rng.randint(1, npts + 6)
+
+
+def window_class(k, npts=None):
+    cls = f"window-{k}" if k <= 4 else ("window-even" if k % 2 == 0 else "window-odd")
+    return cls + ("/longer-than-branch" if npts is not None and k > npts else "")
+
+
+SWC_TYPES = [0, 1, 2, 3, 4, 5, 6, 7]          # undefined, soma, axon, basal, apical, custom …
+TYPE_MODES = ["three-point-soma", "per-branch", "per-subtree", "uniform", "per-node"]
+
+
+def type_column(rng, t, mode, soma_root=True):
+    """INPUT FAMILY "type column": the tree `t` with its `types` drawn from all SWC types instead of "soma root, dendrite elsewhere".
+    The property does not mention types, so they must not matter.  `per-node`: every node its own type; `per-branch`: one type per
+    branch (key node to key node), the soma type among them — multi-point somata are soma-typed nodes below the root; `per-subtree`: one
+    type per child of the root and everything below it (a soma contour, the axon, each dendrite); `uniform`: every node the root's type;
+    `three-point-soma`: the root gets two more children, both soma-typed tips (the standard three-point soma), the rest per-subtree.
+    Returns (tree, True when some branch consists of soma-typed nodes only)."""
+    t = {k: (list(v) if isinstance(v, list) else v) for k, v in t.items()}
+    pids = t["pids"]
+    n = len(pids)
+    soma = 1
+    root = soma if soma_root else rng.choice(SWC_TYPES)
+    draw = lambda: rng.choice(SWC_TYPES + [soma, soma, soma])
+    if mode == "three-point-soma":
+        used = {tuple(p) for p in t["xyz"]}
+        for _sat in range(2):
+            for _try in range(100):
+                ax = rng.randrange(3)
+                q = list(t["xyz"][0]); q[ax] += rng.choice([-1, 1]) * rng.randint(1, 6)
+                if tuple(q) not in used:
+                    break
+            used.add(tuple(q))
+            pids.append(0); t["xyz"].append(q); t["r"].append(t["r"][0])
+        t["n"] = len(pids)
+    kids, cr = crit(pids)
+    crs = set(cr)
+    m = len(pids)
+    types = [root] * m
+    if mode == "per-node":
+        types = [root] + [draw() for _ in range(m - 1)]
+    elif mode == "per-branch":
+        of_end = {e: draw() for e in cr}
+        for i in range(1, m):
+            e = i
+            while e not in crs:
+                e = kids[e][0]
+            types[i] = of_end[e]
+    elif mode in ("per-subtree", "three-point-soma"):
+        top = {c: (soma if mode == "three-point-soma" and c >= n else rng.choice([2, 3, 4, 0, 5]) if mode == "three-point-soma" else draw()) for c in kids.get(0, [])}
+        for i in range(1, m):
+            j = i
+            while pids[j] != 0:
+                j = pids[j]
+            types[i] = top[j]
+    t["types"] = types
+    soma_branch = False
+    for e in cr:
+        if e == 0:
+            continue
+        chain = [e, pids[e]]
+        while chain[-1] not in crs:
+            chain.append(pids[chain[-1]])
+        soma_branch = soma_branch or all(types[x] == soma for x in chain)
+    return t, soma_branch
+
+
 def short(xs, n=24):
     xs = list(xs)
     return str(xs) if len(xs) <= n else f"{str(xs[:n])[:-1]}, … ({len(xs)} entries)]"
@@ -154,6 +228,15 @@ class BranchSuite(Suite):
                 c["n"] = rng.choice([2, 3, 5, 8])
             else:
                 c["k"] = rng.choice([3, 5, 7, 4])
+            if sum(lens) == 0:
+                c["class"] += "/zero-length"
+            out.append(c)
+        # INPUT FAMILY "all smoothing windows" (guaranteed share): every small window in turn, then windows drawn up to beyond the node count
+        for q in range(48 if big else 16):
+            npts = rng.choice([2, 3, 4, 6, 10])
+            k = draw_window(rng, q, npts)
+            pts, lens, r = polyline(rng, npts, zero_ok=rng.random() < 0.3)
+            c = {"class": "smooth/" + window_class(k, npts), "kind": "smooth", "pts": pts, "lens": lens, "r": r, "k": k}
             if sum(lens) == 0:
                 c["class"] += "/zero-length"
             out.append(c)
@@ -554,6 +637,29 @@ class TreeSuite(Suite):
             q += 1
             op = ("smooth", rng.choice([3, 5])) if q % 5 == 0 else ("iso", unit * rng.choice([0.4, 0.5, 1.0, 1.5, 2.5]))
             out.append({"class": f"{op[0]}/offset-1e{k10}/{shape}", "tree": far_tree(t, unit, off), "unit": unit, "op": op[0], "arg": op[1], "warm": None})
+        # the type column drawn from all SWC types (three-point somata, soma contours, soma-typed branches, one type everywhere, a type per
+        # node): guaranteed share, every mode in turn; resampling needs a soma-typed root (it starts from `x.soma()`), smoothing does not
+        q = 0
+        while q < (60 if big else 20):
+            shape = REUSE_SHAPES[(q // len(TYPE_MODES)) % len(REUSE_SHAPES)]
+            t = lattice_tree(rng, gen.renumber_root0(rng, gen.parents_sorted(rng, rng.choice([3, 4, 6, 9, 14] + ([30] if big else [])), shape)))
+            if t is None:
+                continue
+            mode = TYPE_MODES[q % len(TYPE_MODES)]
+            q += 1
+            op = ("smooth", rng.choice([3, 5, 4])) if q % 4 == 0 else ("iso", rng.choice([0.4, 0.5, 1.0, 1.5, 2.5]))
+            t, soma_branch = type_column(rng, t, mode, soma_root=op[0] == "iso" or rng.random() < 0.5)
+            out.append({"class": f"{op[0]}/types-{mode}/" + ("soma-branch" if soma_branch else "no-soma-branch"), "tree": t, "op": op[0], "arg": op[1], "warm": None})
+        # all smoothing windows on trees: every small window in turn, then windows up to beyond the number of nodes
+        q, q0 = 0, rng.randrange(len(REUSE_SHAPES))
+        while q < (36 if big else 12):
+            shape = REUSE_SHAPES[(q0 + q) % len(REUSE_SHAPES)]
+            t = lattice_tree(rng, gen.renumber_root0(rng, gen.parents_sorted(rng, rng.choice([4, 6, 9, 14] + ([30] if big else [])), shape)))
+            if t is None:
+                continue
+            k = draw_window(rng, q, t["n"])
+            q += 1
+            out.append({"class": f"smooth/{window_class(k)}/{shape}", "tree": t, "op": "smooth", "arg": k, "warm": None})
         # furcations nested (or a path running) deeper than the interpreter's recursion limit; the tree is built from its description
         for j, dsc in enumerate(deep_descs(rng, big, 3 if not big else 6, 1 if not big else 3)):
             cls = dsc.pop("class")
